@@ -17,6 +17,14 @@ CHECKS = {
    technique="explicit-state breadth-first search (E2) over the real Data object to a fixpoint, canonical state = object-graph fingerprint incl. aliasing partition; every transition compared with a freshly built dataset and the reference dataset model; merges validated by depth-1 bisimulation",
    text="The real verif.data.Data object is driven by get_scores request events on 2-input 2x2x2 partly-missing datasets in four configurations (plain, -obsrange, one input without observations, climatology). Quick: fixpoint over a 12-request colliding menu (4096 states / 49152 transitions) plus 8-request menus for the other configurations, all histories of length <=2 over a 40-request menu, and whole commands repeated in-process and in fresh subprocesses under 3 hash seeds. Thorough: 16-request fixpoint (65536 states), 12-request menus for the other configurations, length <=2 over 108 requests and length <=3 over 40. Reaching the fixpoint means the verdict covers request histories of any length over the menu. Invariants: answer == fresh dataset's answer == reference model's answer; arrays returned earlier never change; input objects never change.",
    note="trusts: the canonical form (validated by bisimulation on merges: first 1000 in quick, all for menus <=12 in thorough); menus rather than all possible requests; MemInput subclass of verif.input.Input as the input driver"),
+ "C01": dict(level="exploration", design="5/C01",
+   technique="bounded exhaustive enumeration (E1): full products (2^16 missingness patterns; coverage subsets) and deviation-bounded choice trees over 1-4 inputs + climatology, on the real Data object and the CLI, against the reference dataset model",
+   text="All 65536 missingness patterns of 2 inputs x {obs,fcst} x 4 cases; the full product of per-input coverage subsets (with and without an observation field, inputs stored in mutually different orders) through in-memory inputs and through text files + driver (-m mae|obs -agg mean|count); and dev(2) (thorough dev(3), 1-4 inputs) over coverage, observation presence, climatology mode (none/subtract/divide, zero divisor), one missing cell per (file, field, case) of obs/fcst/pit/cdf/quantile fields. Every execution issues every request (9 field combinations x inputs x 7 axes x all slices) and compares with the reference model; it also checks identical case sets / observation values across inputs and the differential pair 'replace one input's forecasts -> the other inputs' answers are bit-identical'.",
+   note="trusts: mc/ref/dataset.py (appendix B of DESIGN.md) as the reading of 'fair comparison'; small scope 2x1x2 / 2x2x2 grids; files that disagree on observation values are left to C02"),
+ "C02": dict(level="exploration", design="5/C02",
+   technique="bounded exhaustive enumeration (E1) of all row / dimension-entry / column / command-line-order permutations on the real readers, Data object and CLI against a coordinate-keyed reference",
+   text="All 8! row orders of a text file (6! of a sparse one) with the other input in a different order and with observations that differ between the files; all 72^2 joint permutations of the dimension entries of two in-memory inputs with extra entries, each under no option / -d / -tod / -t (NetCDF: dev(2) over the six permutations in quick, 72^2 in thorough); a repeated dimension value at every position (first occurrence wins, warning printed); all N! command-line orders of 2-3 (thorough 4) files x 4 metrics x 4 axes through the CLI; 720 x 6 x 2 column orders of the text header. Oracle: each cell of get_scores(All) and each sliced request equals the value the input's own file stores at those coordinates.",
+   note="trusts: mc/ref/dataset.py; default thresholds (derived from the first file by design) are avoided by explicit -r"),
 }
 
 def main():
